@@ -45,6 +45,8 @@ MPI_PLATFORMS = [
 ]
 
 BASE_LOG = "--log=root.thres:critical"
+# VERIF_C47_WILD=1: no case avoids the triggers of the open known findings (to be used on a tree where they are fixed)
+ALL_WILD = os.environ.get("VERIF_C47_WILD") == "1"
 
 
 def _norm_msg(m):
@@ -296,7 +298,7 @@ def run(ctx):
                 force.add("fail")
             if i % 11 == 4:
                 force.add("maestro")
-            wild = (i % 4 == 0)      # wild cases keep the triggers of the open known findings, tame ones leave them out
+            wild = (i % 4 == 0) or ALL_WILD      # wild cases keep the triggers of the open known findings, tame ones leave them out
             opts = tracegen.gen_s4u_options(rng)
             if "vm" in force and wild and rng.random() < 0.6 and "tracing/vm:yes" not in opts:
                 opts.append("tracing/vm:yes")
@@ -316,7 +318,7 @@ def run(ctx):
         for i in range(n_mpi):
             rng = ctx.sub_rng("mpi", i)
             opts = tracegen.gen_mpi_options(rng)
-            wild = (i % 4 == 0)
+            wild = (i % 4 == 0) or ALL_WILD
             m = gen_mpi(rng, opts, not wild)
             if not wild and tracegen.has(opts, "tracing/categorized") and not tracegen.has(opts, "tracing/uncategorized"):
                 m["mask"] &= ~32
